@@ -161,6 +161,49 @@ def arm_parse(l, labels):
     if mn == 'bx' and ops == ['lr']: return ('.bxlr', [('ret',)])
     raise TranslateError('unknown instruction %r' % l)
 
+
+# ----------------------------------------------------------------------------------------- Xtensa
+def xtensa_parse(l, labels):
+    if l.startswith('.') and not l.endswith(':'): return None
+    m = re.match(r'^([.\w$]+):$', l)
+    if m:
+        n = labels.setdefault(m.group(1), len(labels)); return ('.label %d' % n, [('label', n)])
+    parts = l.split(None, 1)
+    mn = parts[0]; ops = [o.strip() for o in parts[1].split(',')] if len(parts) > 1 else []
+    def R(x):
+        if x == 'sp': return 1
+        m = re.match(r'^a(\d+)$', x)
+        if not m or int(m.group(1)) > 15: raise TranslateError('unknown register %r in %r' % (x, l))
+        return int(m.group(1))
+    def lab(x): return labels.setdefault(x, len(labels))
+    def spc(b): return 'stk' if b == 1 else 'mem'
+    if mn == 'entry' and len(ops) == 2 and R(ops[0]) == 1:
+        n = parse_int(ops[1]); return ('.entry %d' % n, [('alu', 'sub', False, 1, 1, ('imm', n))])
+    if mn == 'addi':
+        rd, rs, imm = R(ops[0]), R(ops[1]), parse_int(ops[2])
+        if not -128 <= imm < 128: raise TranslateError('immediate out of range in %r' % l)
+        return ('.addi %s %s (%d)' % (reg(rd), reg(rs), imm), [('alu', 'sub', False, rd, rs, ('imm', -imm)) if imm < 0 else ('alu', 'add', False, rd, rs, ('imm', imm))])
+    if mn in ('s32i.n', 's32i', 'l32i.n', 'l32i'):
+        rt, b, off = R(ops[0]), R(ops[1]), parse_int(ops[2])
+        if off < 0 or off % 4: raise TranslateError('bad offset in %r' % l)
+        k = 'str' if mn.startswith('s') else 'ldr'
+        return ('.%s %s %s %d' % ('s32i' if k == 'str' else 'l32i', reg(rt), reg(b), off), [(k, rt, b, off, spc(b))])
+    if mn == 'ssai':
+        k = parse_int(ops[0])
+        if not 0 <= k < 32: raise TranslateError('shift amount out of range in %r' % l)
+        return ('.ssai %d' % k, [('ssai', k)])
+    if mn == 'src':
+        rd, rs, rt = R(ops[0]), R(ops[1]), R(ops[2]); return ('.src %s %s %s' % (reg(rd), reg(rs), reg(rt)), [('src', rd, rs, rt)])
+    if mn in ('xor', 'and'):
+        rd, rs, rt = R(ops[0]), R(ops[1]), R(ops[2]); return ('.%s %s %s %s' % (mn, reg(rd), reg(rs), reg(rt)), [('alu', mn, False, rd, rs, ('reg', rt))])
+    if mn in ('beqi', 'bnei'):
+        rs, imm, lb = R(ops[0]), parse_int(ops[1]), lab(ops[2])
+        if imm != 0: raise TranslateError('comparison with a non-zero immediate not covered: %r' % l)
+        return ('.%s %s (%d) %d' % (mn, reg(rs), imm, lb), [('bz' if mn == 'beqi' else 'bnz', rs, lb)])
+    if mn == 'retw.n' and not ops: return ('.retw', [('ret',)])
+    if mn == 'ret.n' and not ops: return ('.ret', [('ret',)])
+    raise TranslateError('unknown instruction %r' % l)
+
 # ----------------------------------------------------------------------------------------- micro -> Lean
 def micro_lean(m):
     k = m[0]
@@ -194,6 +237,9 @@ CONFIGS = {
     # ARM: r4-r11 and sp are callee-saved; the return goes to the caller's lr (checked separately)
     'armv6': ('armv6', ['__ARM_ARCH=6', '__arm__'], arm_parse, 'Arm', 0, 1, 13, [4, 5, 6, 7, 8, 9, 10, 11, 13]),
     'armv6m': ('armv6m', ['__ARM_ARCH=6', '__ARM_ARCH_6M__', '__ARM_ARCH_ISA_THUMB=1', '__arm__', '__thumb__'], arm_parse, 'Arm', 0, 1, 13, [4, 5, 6, 7, 8, 9, 10, 11, 13]),
+    # Xtensa: windowed ABI (nothing to restore: register window) and CALL0 ABI (a12-a15, sp, a0)
+    'xtensa_w': ('xtensa', ['__XTENSA__', '__XTENSA_WINDOWED_ABI__'], xtensa_parse, 'Xtensa', 2, 3, 1, []),
+    'xtensa_c0': ('xtensa', ['__XTENSA__', '__XTENSA_CALL0_ABI__'], xtensa_parse, 'Xtensa', 2, 3, 1, [0, 1, 12, 13, 14, 15]),
     'armv7m': ('armv7m', ['__ARM_ARCH=7', '__ARM_ARCH_7M__', '__ARM_ARCH_ISA_THUMB=2', '__arm__', '__thumb__'], arm_parse, 'Arm', 0, 1, 13, [4, 5, 6, 7, 8, 9, 10, 11, 13]),
 }
 NK = {128: 4, 192: 6, 256: 8}
@@ -470,7 +516,7 @@ def emit(t):
     o.append('       let out := permBV %d (fun k => d0.mem (p + BitVec.ofNat 32 (16 + 4 * k))) 0 r ⟨d0.mem (p + %s), d0.mem (p + %s), d0.mem (p + %s), d0.mem (p + %s)⟩' % (nk, lit32(0), lit32(4), lit32(8), lit32(12)))
     o.append('       dF.mem (p + %s) = out.a ∧ dF.mem (p + %s) = out.b ∧ dF.mem (p + %s) = out.c ∧ dF.mem (p + %s) = out.d ∧' % (lit32(0), lit32(4), lit32(8), lit32(12)))
     o.append('       (∀ x, x ≠ p + %s → x ≠ p + %s → x ≠ p + %s → x ≠ p + %s → dF.mem x = d0.mem x)) ∧' % (lit32(0), lit32(4), lit32(8), lit32(12)))
-    o.append('      ' + ' ∧ '.join('dF.r.x%d = d0.r.x%d' % (r, r0) for (r, r0) in cs_pairs) + ' := by')
+    o.append('      ' + (' ∧ '.join('dF.r.x%d = d0.r.x%d' % (r, r0) for (r, r0) in cs_pairs) if cs_pairs else 'True') + ' := by')
     o.append('  obtain ⟨d1, hd1⟩ : ∃ d1, d1 = pre.foldl execD d0 := ⟨_, rfl⟩')
     for q in range(4):
         o.append('  have ps%d : d1.r.x%d = d0.mem (d0.r.x%d + %s) := by rw [hd1]; exact pre_s%d d0' % (q, S[q], a0, lit32(4 * q), q))
@@ -511,7 +557,7 @@ def emit(t):
     for r in range(32):
         if r in frame: o.append('      | x%d => exact hE.f%d' % (r, r))
         else: o.append('      | x%d => exact absurd hr (by decide +kernel)' % r)
-    o.append('    exact ⟨' + ', '.join('cs_x%d d0 dE hstk hfr' % r for (r, r0) in cs_pairs) + '⟩')
+    o.append(('    exact ⟨' + ', '.join('cs_x%d d0 dE hstk hfr' % r for (r, r0) in cs_pairs) + '⟩') if len(cs_pairs) > 1 else ('    exact cs_x%d d0 dE hstk hfr' % cs_pairs[0][0] if cs_pairs else '    trivial'))
     o.append('\nend TJ.Gen.Asm.%s' % name)
     return name, '\n'.join(o) + '\n', a
 
